@@ -141,6 +141,19 @@ def main():
   if ro is not None and (ro.error or len(verdicts) != len(obs)):
     chk.machinery("Observed.tla run failed: %d verdicts for %d observations: %s" % (len(verdicts), len(obs), ro.out[-500:]))
   judge(chk, prop, spec, results, verdicts, obs_index)
+  # ---- step-level trace validation of the performer's hook events (PipelineTrace.tla)
+  # (run once, under C01: C02 / C03 replay the same executions and would repeat the identical validation)
+  nacc, rejected, rt = pipecheck.validate_traces("%s_traces" % prop, results) if prop == "C01" else (0, [], None)
+  nev = sum(len(r.get("events") or []) for r in results)
+  if rt is not None and (rt.error or rt.rc not in (0, 12)):
+    chk.machinery("PipelineTrace run failed: %s" % rt.out[-600:])
+  if nev == 0 and prop == "C01":
+    chk.note("hook H2 silent (no performer events): step-level validation skipped, final-state validation only")
+  for i, v in rejected[:10]:
+    chk.note("spec-drift trace of scenario %s rejected after %s of %s events (spec at %s)" % (results[i]["key"], v.get("consumed"), v.get("len"), v.get("pc")))
+  if rt is not None:
+    states += rt.distinct
+    trans += rt.generated
   # ---- drift (implementation-shaped part of the spec) and statistics
   drift = [r for r in results if r.get("diffs")]
   for r in drift[:10]:
@@ -159,6 +172,7 @@ def main():
       "spec_to_code_replays": sum(1 for r in results if r.get("diffs") is not None),
       "spec_to_code_exact_agreement": sum(1 for r in results if r.get("diffs") == []),
       "spec_drift": len(drift),
+      "step_level_traces_accepted": nacc, "step_level_traces_rejected": len(rejected), "hook_events_validated": nev,
       "random_larger_graphs": sum(1 for r in results if r["tag"] == "random" and r.get("unreal") is None),
       "fixture_model_x_recipe_pairs": sum(1 for r in results if r["tag"].startswith("fixture")),
       "terminal_scenarios_enumerated": len(all_dumps),
